@@ -1626,7 +1626,10 @@ fn run(v: &Value) -> Result<String, String> {
             ops.push(Op::Req("/arr", Some(json!({"o": 1}))));
             ops.push(Op::Merge(json!({"a": 9, "q": [1]})));
             for p in ["/a", "/c~1d", "/u~01", "/t~0", "/arr", "/a/b", "/nope", "", "a"] { ops.push(Op::MergeAt(p, json!({"m": 1}))); }
-            for p in ["/a/n", "/c~1d/k", "/u~01", "/s/t", "/new/deep", "x~0y"] { ops.push(Op::Register(p, json!(3))); }
+            for p in ["/a/n", "/c~1d/k", "/u~01", "/s/t", "/new/deep", "x~0y", "//x", "//a/b"] { ops.push(Op::Register(p, json!(3))); }
+            ops.push(Op::MergeAt("//x", json!({"m": 1})));
+            ops.push(Op::Req("//x", None));
+            ops.push(Op::Req("//x", Some(json!(5))));
             let n = ops.len();
             let probe: Vec<&str> = pointers.iter().copied().filter(|p| tokens(p).is_ok()).collect();
             let mut idx = vec![0usize; len];
@@ -1710,6 +1713,14 @@ fn run(v: &Value) -> Result<String, String> {
                             for (k, x) in o { model.doc.as_object_mut().unwrap().insert(k, x); }
                         }
                     }
+                    // read_value is the in-process twin of an empty-body dispatch: same answer for every pointer that is not a callable
+                    for q in pointers.iter().copied().chain(["//x", "/t~", "counter", "a/b"]) {
+                        let d = reg.dispatch(q, None);
+                        if let Ok(v) = &d { if v.get("type") == Some(&json!("function")) { continue; } }
+                        let r = reg.read_value(q);
+                        let same = match (&d, &r) { (Ok(x), Ok(y)) => x == y, (Err(x), Err(y)) => class(x.code()) == class(y.code()), _ => false };
+                        if !same { return Err(format!("{}: read_value({q:?}) answered {:?} but an empty-body dispatch of the same pointer answered {:?}", ctx(), r.as_ref().map_err(|e| e.to_string()), d.as_ref().map_err(|e| e.to_string()))); }
+                    }
                     let doc = reg.read_value("").map_err(|e| format!("{}: reading the root failed: {e}", ctx()))?;
                     if doc != model.doc { return Err(format!("{}: after {op:?} the registry holds {doc} but a JSON document would hold {}", ctx(), model.doc)); }
                     if *calls.lock().unwrap() != model.calls { return Err(format!("{}: callables were invoked as {:?}; expected exactly {:?}", ctx(), calls.lock().unwrap(), model.calls)); }
@@ -1773,7 +1784,23 @@ fn run(v: &Value) -> Result<String, String> {
             run("credit/second-resume-frees-credit", &ring, 0, 256, &|c| { let _ = c.request_resume(peer(), 0, 0); let _ = c.request_resume(peer(), 0, 512); }, "ok")?;
             run("reconnect/resume", &ring, 1, 0, &|c| { let _ = c.request_resume(peer(), 0, 256); }, "resume:256")?;
             run("reconnect/cancel", &none, 1, 0, &|c| { c.cancel("gone"); }, "cancelled:gone")?;
-            Ok("9 wake-up scenarios held".to_string())
+            // the reconnect window is an absolute deadline: unrelated wake-ups (straggler acks) must not re-arm it
+            {
+                let ctl = Arc::new(TransferControl::with_replay_capacity(1000, 1 << 20));
+                ctl.record_sent(500);
+                let c2 = ctl.clone();
+                let stop = Arc::new(std::sync::atomic::AtomicBool::new(false));
+                let st2 = stop.clone();
+                let trickle = std::thread::spawn(move || { let mut k = 1u64; let t = Instant::now(); while !st2.load(std::sync::atomic::Ordering::SeqCst) && t.elapsed() < Duration::from_secs(4) { c2.record_ack(0, k); k += 1; std::thread::sleep(Duration::from_millis(150)); } });
+                let t0 = Instant::now();
+                let out = ctl.wait_for_reconnect(Duration::from_millis(900));
+                let el = t0.elapsed();
+                stop.store(true, std::sync::atomic::Ordering::SeqCst);
+                let _ = trickle.join();
+                if !matches!(out, ReconnectOutcome::Timeout) { return Err(format!("reconnect/deadline: expected Timeout, got {out:?}")); }
+                if el > Duration::from_millis(2500) { return Err(format!("reconnect/deadline: wait_for_reconnect(900 ms) returned Timeout only after {:.1} s while unrelated acks kept arriving every 150 ms: each wake-up re-armed the whole window", el.as_secs_f64())); }
+            }
+            Ok("10 wake-up scenarios held".to_string())
         }
         "client_stalled_writer_then_malformed" => {
             // C06 scenario: one call is in flight (request read by the peer, no response yet); a second caller's large
